@@ -95,6 +95,20 @@ CHECKS = {
                "and byte arrays of length 0..40 around the inline limit, multi-byte UTF-8, vectors) as keys and as values on "
                "DbMemory, DbFile and Db in lock-step incl. after reopen/backup; values are carried as bit-exact tokens and "
                "TLC demands token equality through DbModel's key-value semantics.", "3.3, 4 C12"),
+    "C20": dict(
+        level="exploration",
+        text="LIMITED claim: framing and sizes. Values of the built-in serializable types (integers, floats incl. signed zero and "
+             "infinities, bool, usize, strings with 1-4 byte UTF-8, byte vectors, nested vectors, PathBuf, SocketAddr, IpAddr, "
+             "SystemTime before and after the epoch) and of a corpus of DbSerialize-derived types (named / tuple / unit structs, "
+             "nested, enums with unit / tuple / struct / nested variants) are serialized, measured and deserialized by the real "
+             "code; each event carries the framing tree written by hand from the format rules. Codec.tla recomputes the size and the "
+             "offset and value of every length prefix and variant tag from the tree and requires Len(bytes) = reported size = "
+             "Size(tree), Framed(bytes, tree) and a successful round trip.",
+        design="B.3.7, B.4 C20, A.6",
+        note="leaf contents (scalar byte order, float bits, UTF-8) are opaque to TLC and decided only by the driver's round-trip "
+             "equality; DbValue / DbKeyValue / DbId / QueryId are opaque values (size = length, round trip); values are sampled",
+        technique="TLA+ (TLC) evaluation of an independent framing / size oracle over recorded serializations",
+        engine="vdb"),
     "C22": _db("A corpus of user types deriving agdb::DbType (scalars, strings and byte arrays across the inline limit, bool, f64, "
                "vectors of strings / integers / floats, Option fields, id fields of type Option<DbId> and Option<QueryId>, a type "
                "without id) is inserted with insert().element / elements, updated through the id field, and selected back as that "
@@ -259,7 +273,7 @@ ENGINES = [
     {"name": "vstorage", "path": "harness/vstorage", "serves_properties": ["C01", "C04", "C19"],
      "kind_free_text": "Rust drivers over the real storage layer and hash map (hooks H1, H2); TLC for WalStorage/WalTrace, StorageAlloc/StorageAllocTrace, HashMap/HashMapTrace"},
     {"name": "vdb", "path": "harness/vdb",
-     "serves_properties": ["C02", "C03", "C22", "C23", "C32", "C05", "C06", "C08", "C09", "C10", "C11", "C12", "C13", "C14", "C15", "C16", "C17", "C18"],
+     "serves_properties": ["C02", "C03", "C20", "C22", "C23", "C32", "C05", "C06", "C08", "C09", "C10", "C11", "C12", "C13", "C14", "C15", "C16", "C17", "C18"],
      "kind_free_text": "Rust driver recording query histories from the real database (all storage variants); "
                        "TLC for DbModel/DbSearch/DbTrace/MCDb"},
 ]
@@ -273,7 +287,6 @@ ENGINES.append({"name": "vserver", "path": "lib/serverdrv.py", "serves_propertie
                                   "TLC for ServerTrace"})
 
 NOT_APPLICABLE = [
-    {"property_id": "C20", "reason": "encode/decode fidelity and exact sizes of pure functions: TLC sees leaf encodings only as opaque tokens, so a TLA+ model of the framing would decide a small fraction of the statement and the driver's own equality test the rest (DESIGN.md A.6)"},
 
     {"property_id": "C07", "reason": "robustness/memory-safety over arbitrary file bytes (panic, abort, allocation size): no state machine for a TLA+ specification to constrain, TLC cannot observe panics or allocations"},
     {"property_id": "C21", "reason": "decode robustness of pure functions on arbitrary bytes: nothing for a TLA+ specification to decide"},
